@@ -390,13 +390,11 @@ def step (st : St) (op impl : String) : St × StepOut :=
   | ["actor", "job", "cast", tag, h, m] =>
     match unhex? h, (if m == "none" then some none else (unhex? m).map some) with
     | some args, some mb =>
-      let d := match decodeMeta mb with
-        | none => none
-        | some jm =>
-          match decode (.uint 8) jm.key with
-          | some (.nat k) =>
-            (deserialize (variants st) (.cast tag args)).map (fun (t, vs) => (s!"job {k} {t}", vs))
-          | _ => none
+      -- `Codec.decodeJob`: metadata, key (`u64::from_bytes`), inner message
+      let d := (decodeJob (.uint 8) (variants st) (.cast tag args) mb).bind fun r =>
+        match r.1 with
+        | .nat k => some (s!"job {k} {r.2.2.1}", r.2.2.2)
+        | _ => none
       (st, { model := showSeen d, oracle := actorOracle impl, nontrivial := d.isNone })
     | _, _ => (st, { model := "bad-op" })
   | _ => (st, { model := "bad-op" })
